@@ -116,26 +116,37 @@ func c03Grid(d corev1.ResourceName) int64 {
 	return 1
 }
 
-// amount in [0,hi] on the dimension's grid, biased to the ends
+// amount in [0,hi] on the dimension's grid; rapid favours small values and the two ends (requests, minima)
 func c03Amount(t *rapid.T, d corev1.ResourceName, hi int64, label string) int64 {
-	return c03AmountZ(t, d, hi, label, 5)
-}
-
-// the same with a chosen rarity of the two ends (1 in z+1 each): a zero max / zero capacity silences a whole
-// subtree when runtime quota is on, so capacities and maxima hit zero less often than requests and minima do
-func c03AmountZ(t *rapid.T, d corev1.ResourceName, hi int64, label string, z int) int64 {
 	g := c03Grid(d)
 	n := hi / g
 	if n <= 0 {
 		return 0
 	}
-	switch rapid.IntRange(0, z).Draw(t, label+"Kind") {
+	switch rapid.IntRange(0, 5).Draw(t, label+"Kind") {
 	case 0:
 		return 0
 	case 1:
 		return n * g
 	}
 	return rapid.Int64Range(0, n).Draw(t, label) * g
+}
+
+// amount in [0,hi] for maxima and node capacities: zero is rare (a zero max or an empty cluster silences a whole
+// subtree when runtime quota is on) and values lean towards hi, so that a quota fills up over several pods
+func c03AmountBig(t *rapid.T, d corev1.ResourceName, hi int64, label string) int64 {
+	g := c03Grid(d)
+	n := hi / g
+	if n <= 0 {
+		return 0
+	}
+	switch rapid.IntRange(0, 15).Draw(t, label+"Kind") {
+	case 0:
+		return 0
+	case 1:
+		return rapid.Int64Range(0, n).Draw(t, label+"Small") * g
+	}
+	return (n - rapid.Int64Range(0, n-1).Draw(t, label)) * g
 }
 
 func c03MaxHi(d corev1.ResourceName) int64 {
@@ -383,7 +394,7 @@ var c03DimSets = [][]corev1.ResourceName{
 func c03GenMax(t *rapid.T, dims []corev1.ResourceName, label string) c03Res {
 	m := c03Res{}
 	for _, d := range dims {
-		m[d] = c03AmountZ(t, d, c03MaxHi(d), label+"-"+string(d), 15)
+		m[d] = c03AmountBig(t, d, c03MaxHi(d), label+"-"+string(d))
 	}
 	return m
 }
@@ -552,11 +563,11 @@ func (h *c03Case) genNodeAlloc(t *rapid.T) (c03Res, []corev1.ResourceName) {
 			continue
 		}
 		keys = append(keys, d)
-		hi := c03MaxHi(d)
 		if h.tight {
-			hi /= 2
+			alloc[d] = c03Amount(t, d, c03MaxHi(d)/2, "alloc-"+string(d))
+		} else {
+			alloc[d] = c03AmountBig(t, d, c03MaxHi(d), "alloc-"+string(d))
 		}
-		alloc[d] = c03AmountZ(t, d, hi, "alloc-"+string(d), 15)
 	}
 	return alloc, keys
 }
@@ -573,7 +584,7 @@ func (h *c03Case) nodeAdd(t *rapid.T) {
 
 func (h *c03Case) capacityChange(t *rapid.T) {
 	names := vk.SortedKeys(h.nodes)
-	kind := rapid.IntRange(0, 3).Draw(t, "capacityKind")
+	kind := rapid.SampledFrom([]int{0, 0, 0, 1, 1, 1, 2, 2, 2, 2, 3}).Draw(t, "capacityKind")
 	if kind == 3 && len(names) > 0 { // squeeze: every node shrinks to a quarter (runtime falls below what is already used)
 		for _, name := range names {
 			n := h.nodes[name]
@@ -716,24 +727,33 @@ func (h *c03Case) pick(t *rapid.T, state int, label string, prefer func(*c03Pod)
 	return h.pods[rapid.SampledFrom(names).Draw(t, label)]
 }
 
-// leaves without a standing rejection that sit below an ancestor whose usage is at least 3/4 of its published limit
-// in some declared dimension (read from the plugin's summaries: a generator heuristic, not part of the oracle)
+// leaves without a standing rejection that sit below an ancestor that cannot grow much any more: its usage is at
+// least 3/4 of its max, or (runtime quota) at least 3/4 of the cluster is handed out. A generator heuristic only.
 func (h *c03Case) leavesUnderFullAncestor() []string {
-	var sums map[string]*core.QuotaInfoSummary
+	total, handedOut := c03Res{}, c03Res{}
+	for _, n := range vk.SortedKeys(h.nodes) {
+		for d, v := range h.nodes[n].Alloc {
+			total[d] += v
+		}
+	}
+	for _, n := range h.podNames() {
+		if pd := h.pods[n]; pd.State != c03Pending {
+			for _, d := range h.quotas[pd.Quota].Dims {
+				handedOut[d] += pd.Req[d]
+			}
+		}
+	}
 	var out []string
 	for _, leaf := range h.leaves {
 		lq := h.quotas[leaf]
 		if h.rejByQ[leaf] || lq.Parent == "" {
 			continue
 		}
-		if sums == nil {
-			sums = h.p.GetQuotaSummaries("", false)
-		}
 		hot := false
 		for _, a := range h.chain(lq) {
 			au := h.modelUsed(a, false)
 			for _, d := range a.Dims {
-				if lim, ok := h.limit(a, d, sums); ok && au[d] > 0 && au[d]*4 >= lim*3 {
+				if au[d] > 0 && (au[d]*4 >= a.Max[d]*3 || (h.rtOn && handedOut[d]*4 >= total[d]*3)) {
 					hot = true
 				}
 			}
@@ -1000,44 +1020,6 @@ func (h *c03Case) schedule(t *rapid.T, pd *c03Pod, midCycle func()) {
 			h.c.Class("declared-dimension-missing-from-runtime-of-regular-quota(not limited by plugin; not asserted)")
 		}
 	}
-	c03Dbg["attempts"]++
-	if len(h.chain(own)) > 0 {
-		c03Dbg["attempts-with-ancestors"]++
-		if !vb.own {
-			c03Dbg["anc:own-false"]++
-			if pd.Rejected {
-				c03Dbg["anc:own-false:retry"]++
-			}
-			zero := false
-			for _, d := range own.Dims {
-				if lim, ok := h.limit(own, d, before); ok && lim == 0 && pd.Req[d] > 0 {
-					zero = true
-				}
-			}
-			if zero {
-				c03Dbg["anc:own-false:limit-zero"]++
-			}
-			if h.tight {
-				c03Dbg["anc:own-false:tight"]++
-			}
-		} else if !vb.ancWide {
-			c03Dbg["anc:own-ok-anc-false"]++
-		} else {
-			c03Dbg["anc:all-ok"]++
-		}
-		// is any ancestor over-used wrt its runtime?
-		for _, a := range h.chain(own) {
-			au := h.modelUsed(a, false)
-			for _, d := range a.Dims {
-				if lim, ok := h.limit(a, d, before); ok && au[d] > lim {
-					c03Dbg["anc:ancestor-overused-now"]++
-				}
-				if lim, ok := h.limit(a, d, before); ok && lim < a.Max[d] {
-					c03Dbg["anc:ancestor-runtime<max"]++
-				}
-			}
-		}
-	}
 	code := status.Code()
 	switch code {
 	case fwktype.Success:
@@ -1156,10 +1138,7 @@ func (h *c03Case) invariant(t *rapid.T) {
 
 // ---------------------------------------------------------------- the state machine
 
-var c03Dbg = map[string]int{}
-
 func c03Run(t *testing.T, unit string, rtOn, parOn bool) {
-	defer func() { fmt.Printf("C03DBG %v\n", c03Dbg) }()
 	rec := vk.New(t, "C03", unit)
 	p := c03NewPlugin(t)
 	salt := 0
@@ -1182,8 +1161,13 @@ func c03Run(t *testing.T, unit string, rtOn, parOn bool) {
 				return
 			}
 			// mostly pods that have a chance: never refused so far, or something was freed on their path since
-			pd := h.pick(t, c03Pending, "pendingPod", func(x *c03Pod) bool { return !x.Rejected || h.relByQ[x.Quota] })
-			if pd == nil || rapid.IntRange(0, 4).Draw(t, "freshPod") == 0 {
+			hopeful := func(x *c03Pod) bool { return !x.Rejected || h.relByQ[x.Quota] }
+			pd := h.pick(t, c03Pending, "pendingPod", hopeful)
+			fresh := 1 // in 6
+			if pd != nil && !hopeful(pd) {
+				fresh = 4 // nothing pending has a better chance than last time: rather bring a new pod
+			}
+			if pd == nil || rapid.IntRange(0, 5).Draw(t, "freshPod") < fresh {
 				pd = h.createPod(t)
 			}
 			var mid func()
@@ -1279,47 +1263,3 @@ func TestVerifC03RuntimeOnParentOff(t *testing.T)  { c03Run(t, "runtime-on/paren
 func TestVerifC03RuntimeOnParentOn(t *testing.T)   { c03Run(t, "runtime-on/parent-on", true, true) }
 func TestVerifC03RuntimeOffParentOff(t *testing.T) { c03Run(t, "runtime-off/parent-off", false, false) }
 func TestVerifC03RuntimeOffParentOn(t *testing.T)  { c03Run(t, "runtime-off/parent-on", false, true) }
-
-func TestVerifC03Probe(t *testing.T) {
-	p := c03NewPlugin(t)
-	p.pluginArgs.EnableRuntimeQuota = true
-	p.pluginArgs.EnableCheckParentQuota = true
-	var initial []interface{}
-	for _, eq := range c03BuiltinObjs(p) {
-		initial = append(initial, eq)
-	}
-	_ = p.ReplaceQuotas(initial)
-	dims := []corev1.ResourceName{corev1.ResourceCPU}
-	mk := func(name, parent string, isParent bool, max, min int64) {
-		q := &c03Quota{Name: name, Parent: parent, IsParent: isParent, Dims: dims, Max: c03Res{corev1.ResourceCPU: max}, Min: c03Res{corev1.ResourceCPU: min}, AllowLent: true, Namespace: "quotas", RV: 1}
-		p.OnQuotaAdd(c03QuotaObj(q))
-	}
-	mk("P", "", true, 4000, 0)
-	mk("A", "P", false, 8000, 0)
-	mk("B", "P", false, 8000, 0)
-	n := &c03Node{Name: "n1", RV: 1, Alloc: c03Res{corev1.ResourceCPU: 100000}, Keys: dims}
-	p.OnNodeAdd(c03NodeObj(n))
-	pod := func(name, quota string, cpu int64) *corev1.Pod {
-		return &corev1.Pod{ObjectMeta: metav1.ObjectMeta{Name: name, Namespace: "work", Labels: map[string]string{extension.LabelQuotaName: quota}, ResourceVersion: "1"},
-			Spec: corev1.PodSpec{Containers: []corev1.Container{{Resources: corev1.ResourceRequirements{Requests: corev1.ResourceList{corev1.ResourceCPU: c03Qty(cpu, corev1.ResourceCPU)}}}}}}
-	}
-	show := func(when string) {
-		s := p.GetQuotaSummaries("", false)
-		for _, q := range []string{"P", "A", "B"} {
-			t.Logf("%s: %s used=%s runtime=%s request=%s", when, q, c03Str(c03FromList(s[q].Used)), c03Str(c03FromList(s[q].Runtime)), c03Str(c03FromList(s[q].Request)))
-		}
-	}
-	try := func(pd *corev1.Pod) {
-		p.OnPodAdd(pd)
-		_, st := p.PreFilter(context.TODO(), framework.NewCycleState(), pd, nil)
-		t.Logf("PreFilter %s -> %v %s", pd.Name, st.Code(), st.Message())
-		if st.IsSuccess() {
-			p.Reserve(context.TODO(), framework.NewCycleState(), pd, "n1")
-		}
-		show("after " + pd.Name)
-	}
-	try(pod("a1", "A", 2000))
-	try(pod("a2", "A", 1500))
-	try(pod("a3", "A", 1000))
-	try(pod("b1", "B", 1500))
-}
